@@ -92,8 +92,13 @@ def build(spec):
     if cls == 'rectangle':
         return R.RectanglePixelRegion(c, spec['width'], spec['height'], **akw, **kw)
     if cls == 'polygon':
-        v = PixCoord(np.array(spec['vertices'][0], float), np.array(spec['vertices'][1], float))
-        return R.PolygonPixelRegion(v, **kw)
+        vx, vy = np.array(spec['vertices'][0], float), np.array(spec['vertices'][1], float)
+        if _poly_origin_route(spec):
+            # same absolute vertices, given relative to a non-zero `origin=` (a dyadic offset, so the sum is exact
+            # for the dyadic catalogue polygons and within the guard band otherwise)
+            ox, oy = 12.5, -7.25
+            return R.PolygonPixelRegion(PixCoord(vx - ox, vy - oy), origin=PixCoord(ox, oy), **kw)
+        return R.PolygonPixelRegion(PixCoord(vx, vy), **kw)
     if cls == 'regpoly':
         return R.RegularPolygonPixelRegion(c, spec['n'], spec['radius'], **akw, **kw)
     if cls == 'circleannulus':
@@ -108,6 +113,13 @@ def build(spec):
     if cls == 'line':
         return R.LinePixelRegion(PixCoord(*spec['start']), PixCoord(*spec['end']), **kw)
     raise ValueError(cls)
+
+
+def _poly_origin_route(spec):
+    """Every third polygon spec (by hash of its vertices) is built through the `origin=` keyword."""
+    import json
+    import zlib
+    return zlib.crc32(json.dumps(spec['vertices']).encode()) % 3 == 0
 
 
 def included(spec):
@@ -455,7 +467,7 @@ def _scaled(spec, f, shift):
     return t
 
 
-def build_via_reassign(spec):
+def build_via_reassign(spec, inplace=False):
     """The same region as ``build(spec)`` reached through another history: it is first built with other
     parameters and *used* (membership, box, area, mask), then every parameter is re-assigned.  Any state that
     is derived once and cached on the instance makes this region differ from a freshly built one."""
@@ -464,8 +476,8 @@ def build_via_reassign(spec):
     if cls == 'compound':
         import operator
         r = build(spec)
-        r.region1 = build_via_reassign(spec['r1'])
-        r.region2 = build_via_reassign(spec['r2'])
+        r.region1 = build_via_reassign(spec['r1'], inplace)
+        r.region2 = build_via_reassign(spec['r2'], inplace)
         return r
     if cls == 'regpoly':
         return build(spec)       # its vertices are derived at construction by design
@@ -484,6 +496,30 @@ def build_via_reassign(spec):
     # shrinking: inner sizes first, so that inner < outer holds at every step
     for k in sorted(sizes, key=lambda n: 0 if n.startswith('inner') else 1):
         setattr(reg, k, spec[k])
+    if inplace:
+        # the coordinate objects the region already holds are modified in place (no attribute assignment happens)
+        if 'center' in spec:
+            reg.center.x, reg.center.y = spec['center'][0], spec['center'][1]
+        if 'vertices' in spec:
+            if not reg.vertices.x.flags.writeable:
+                reg.vertices.x, reg.vertices.y = np.array(reg.vertices.x), np.array(reg.vertices.y)
+            reg.vertices.x[:] = np.array(spec['vertices'][0], float)
+            reg.vertices.y[:] = np.array(spec['vertices'][1], float)
+        if 'start' in spec:
+            reg.start.x, reg.start.y = spec['start']
+            reg.end.x, reg.end.y = spec['end']
+        if spec.get('angle') is not None:
+            new = _angle_obj(spec['angle'])
+            if new.unit == reg.angle.unit and type(new) is type(reg.angle):
+                reg.angle[...] = new
+            else:
+                reg.angle = new
+        meta, vis = _meta(spec)
+        reg.meta.clear()
+        reg.meta.update(meta)
+        reg.visual.clear()
+        reg.visual.update(vis)
+        return reg
     if 'center' in spec:
         reg.center = PixCoord(spec['center'][0], spec['center'][1])
     if spec.get('angle') is not None:
@@ -500,14 +536,18 @@ def build_via_reassign(spec):
 
 
 def route_of(spec):
-    """Deterministic choice of the construction route for a spec (every 4th spec by hash is re-assigned)."""
+    """Deterministic choice of the construction route for a spec: by hash, 1 in 5 specs is reached by re-assigning
+    every parameter and 1 in 5 by modifying the held coordinate/angle/metadata objects in place."""
     import json
     import zlib
     h = zlib.crc32(json.dumps(spec, sort_keys=True, default=repr).encode())
-    return 'reassign' if h % 4 == 0 else 'fresh'
+    return {0: 'reassign', 1: 'inplace'}.get(h % 5, 'fresh')
 
 
 def build_routed(spec):
-    if route_of(spec) == 'reassign':
+    r = route_of(spec)
+    if r == 'reassign':
         return build_via_reassign(spec)
+    if r == 'inplace':
+        return build_via_reassign(spec, inplace=True)
     return build(spec)
